@@ -129,18 +129,23 @@ def _process_step_expression(
             # expression, but it proceeds recursively until no target is
             # found and it and it sets the new targets to the entire list
             # of assets identified during the entire transitive recursion.
+            # Assets already found are not expanded again, otherwise cyclic
+            # or reflexive associations would recurse forever.
             new_target_assets = []
-            for target_asset in target_assets:
-                new_target_assets.extend(model.\
-                    get_associated_assets_by_field_name(target_asset,
-                        step_expression['stepExpression']['name']))
-            if new_target_assets:
-                (additional_assets, _) = _process_step_expression(
-                    lang_graph, model, new_target_assets, step_expression)
-                new_target_assets.extend(additional_assets)
-                return (new_target_assets, None)
-            else:
-                return ([], None)
+            current_assets = list(target_assets)
+            while current_assets:
+                found_assets = []
+                for target_asset in current_assets:
+                    found_assets.extend(model.\
+                        get_associated_assets_by_field_name(target_asset,
+                            step_expression['stepExpression']['name']))
+                current_assets = []
+                for asset in found_assets:
+                    if not any(known.id == asset.id \
+                            for known in new_target_assets):
+                        new_target_assets.append(asset)
+                        current_assets.append(asset)
+            return (new_target_assets, None)
 
         case 'subType':
             new_target_assets = []
